@@ -5,6 +5,8 @@
    any interleaving of the labelled steps. *)
 From Coq Require Import String.
 From CR Require Import Model.Server.
+(* the wiring in main() the model takes for granted (one State, one Metrics, epoch = start, Serve error fatal): Properties/Main.v *)
+From CR Require Properties.Main.
 From CR Require Import Proofs.Server.
 From Coq Require Import List Lia.
 Import ListNotations.
